@@ -93,8 +93,8 @@ impl Property for C19 {
     }
     fn budget(&self, tier: Tier) -> (u32, u32) {
         match tier {
-            Tier::Quick => (1200, 8),
-            Tier::Thorough => (20000, 16),
+            Tier::Quick => (2500, 8),
+            Tier::Thorough => (60000, 16),
         }
     }
     fn required_counters(&self) -> Vec<&'static str> {
